@@ -64,3 +64,5 @@ func openAdapter(backend int) store.Store {
 	}
 	return st
 }
+
+func replayScale() int { return 400 }
